@@ -250,8 +250,11 @@ func cmdCheck(args []string) int {
 			if *only != "" && !strings.Contains(n, *only) {
 				continue
 			}
-			if !accessesGuarded(st, ct.Guards, fn) {
+			if !accessesGuarded(st, ct.Guards, fn) && !callsGuardedPre(ct, fn) {
 				continue
+			}
+			if pos := prog.Fset.Position(fn.Pos()); filepath.Base(pos.Filename) == "testing.go" {
+				continue // test support code compiled into the package (metrics/testing.go)
 			}
 			fc := ct.Funcs[n]
 			if fc != nil && (fc.Trusted || len(fc.Cases) > 0) {
@@ -297,7 +300,10 @@ func cmdCheck(args []string) int {
 				continue
 			}
 			for _, o := range r.Obls {
-				if hasProp(o.Props, *prop) {
+				if sweep && !(o.Explicit || o.MustFail) {
+					continue // lock-discipline sweep: only the guard obligations and the preconditions tagged for it
+				}
+				if hasProp(o.Props, *prop) || (sweep && o.MustFail) {
 					obls = append(obls, o)
 				}
 			}
